@@ -13,6 +13,7 @@ import (
 	"io/fs"
 	"strings"
 	"testing/fstest"
+	"time"
 
 	"github.com/go-git/go-git/v6/config"
 	"github.com/go-git/go-git/v6/plumbing"
@@ -114,6 +115,105 @@ func (f *c53File) Seek(off int64, whence int) (int64, error) {
 }
 
 func (f *c53File) Close() error { return nil }
+
+// c53PackFile is the counting file as a billy.File (what packfile.NewPackfile takes).
+type c53PackFile struct{ *c53File }
+
+type c53Info struct{ n int64 }
+
+func (i c53Info) Name() string       { return "p.pack" }
+func (i c53Info) Size() int64        { return i.n }
+func (i c53Info) Mode() fs.FileMode  { return 0o444 }
+func (i c53Info) ModTime() time.Time { return time.Time{} }
+func (i c53Info) IsDir() bool        { return false }
+func (i c53Info) Sys() any           { return nil }
+
+func (f c53PackFile) Stat() (fs.FileInfo, error)         { return c53Info{int64(len(f.data))}, nil }
+func (f c53PackFile) Name() string                       { return "p.pack" }
+func (f c53PackFile) Write([]byte) (int, error)          { return 0, errors.New("read-only") }
+func (f c53PackFile) WriteAt([]byte, int64) (int, error) { return 0, errors.New("read-only") }
+func (f c53PackFile) Truncate(int64) error               { return errors.New("read-only") }
+
+// c53Bundle joins an idx and its pack into one input: 2-byte big-endian idx
+// length, idx, pack. The random-access decoder takes it apart again, so that
+// the neighbourhoods mutate the pack under a valid idx, the idx over a valid
+// pack, and the split point.
+func c53Bundle(idx, pack []byte) []byte {
+	b := []byte{byte(len(idx) >> 8), byte(len(idx))}
+	return append(append(b, idx...), pack...)
+}
+
+// c53RandomAccess opens the pack through packfile.Packfile (the path used for
+// every object read from a packed repository) and reads every object the idx
+// lists, by id and by offset, and then all of them through the iterator.
+func c53RandomAccess(d []byte, l *c53Lim) error {
+	if len(d) < 2 {
+		return errors.New("short bundle")
+	}
+	n := int(d[0])<<8 | int(d[1])
+	if n > len(d)-2 {
+		return errors.New("short bundle")
+	}
+	idxData, pack := d[2:2+n], d[2+n:]
+	in, err := fstest.MapFS{"idx": {Data: idxData}}.Open("idx")
+	if err != nil {
+		return err
+	}
+	idx := new(idxfile.MemoryIndex)
+	if err := idxfile.NewDecoder(in.(interface {
+		io.Reader
+		Stat() (fs.FileInfo, error)
+	}), hash.New(crypto.SHA1)).Decode(idx); err != nil {
+		return err
+	}
+	pf := packfile.NewPackfile(c53PackFile{l.file(pack)}, packfile.WithIdx(idx))
+	defer pf.Close()
+	var first error
+	note := func(err error) {
+		if err != nil && first == nil {
+			first = err
+		}
+	}
+	read := func(o plumbing.EncodedObject, err error) {
+		note(err)
+		if err != nil || o == nil {
+			return
+		}
+		r, err := o.Reader()
+		note(err)
+		if err == nil {
+			_, err = io.Copy(io.Discard, io.LimitReader(r, 1<<22))
+			note(err)
+			_ = r.Close()
+		}
+	}
+	if iter, err := idx.Entries(); err == nil {
+		for range 64 {
+			e, err := iter.Next()
+			if err != nil {
+				break
+			}
+			read(pf.Get(e.Hash))
+			read(pf.GetByOffset(int64(e.Offset)))
+			_, err = pf.GetSizeByOffset(int64(e.Offset))
+			note(err)
+		}
+		_ = iter.Close()
+	}
+	if it, err := pf.GetAll(); err == nil {
+		for range 64 {
+			o, err := it.Next()
+			if err != nil {
+				break
+			}
+			read(o, nil)
+		}
+		it.Close()
+	} else {
+		note(err)
+	}
+	return first
+}
 
 func (l *c53Lim) stream(d []byte) *c53Stream { return &c53Stream{l: l, data: d} }
 func (l *c53Lim) file(d []byte) *c53File     { return &c53File{c53Stream{l: l, data: d}} }
@@ -284,10 +384,10 @@ func c53Decoders() []*c53Decoder {
 				return nil
 			}, files: []string{"loose-blob.z", "loose-commit.z", "loose-tree.z", "loose-bigheader.z", "loose-hugesize.z"}},
 		{name: "packfile/parser-stream", alpha: bin, tpls: []c53Tpl{raw, {pre: "PACK\x00\x00\x00\x02\x00\x00\x00\x01"}, {pre: "PACK\x00\x00\x00\x02", post: "\x30\x78\x9c\x03\x00\x00\x00\x00\x01"}},
-			run: func(d []byte, l *c53Lim) error { _, err := packfile.NewParser(l.stream(d)).Parse(); return err },
+			run:   func(d []byte, l *c53Lim) error { _, err := packfile.NewParser(l.stream(d)).Parse(); return err },
 			files: []string{"pack-small.pack", "pack-delta.pack", "pack-refdelta.pack", "pack-empty.pack", "pack-overflow.pack"}},
 		{name: "packfile/parser-file", alpha: bin, tpls: []c53Tpl{{pre: "PACK\x00\x00\x00\x02\x00\x00\x00\x02"}},
-			run: func(d []byte, l *c53Lim) error { _, err := packfile.NewParser(l.file(d)).Parse(); return err },
+			run:   func(d []byte, l *c53Lim) error { _, err := packfile.NewParser(l.file(d)).Parse(); return err },
 			files: []string{"pack-small.pack", "pack-delta.pack", "pack-refdelta.pack"}},
 		{name: "packfile/scanner", alpha: bin, tpls: []c53Tpl{raw, {pre: "PACK\x00\x00\x00\x02\x00\x00\x00\x01"}},
 			run: func(d []byte, l *c53Lim) error {
@@ -299,8 +399,10 @@ func c53Decoders() []*c53Decoder {
 				}
 				return s.Error()
 			}, files: []string{"pack-small.pack", "pack-delta.pack", "pack-ofsself.pack", "pack-empty.pack"}},
+		{name: "packfile/random-access", alpha: bin, tpls: []c53Tpl{raw},
+			run: c53RandomAccess, files: []string{"bundle-small.bin", "bundle-delta.bin", "bundle-refdelta.bin", "bundle-selfref.bin", "bundle-refcycle.bin", "bundle-ofszero.bin"}},
 		{name: "packfile/patch-delta", alpha: []string{"\x00", "\x01", "\x0a", "\x7f", "\x80", "\x90", "\xff", "a"}, tpls: []c53Tpl{raw, {pre: "\x0a"}, {pre: "\x0a\x0a"}},
-			run: func(d []byte, _ *c53Lim) error { _, err := packfile.PatchDelta([]byte("some value"), d); return err },
+			run:   func(d []byte, _ *c53Lim) error { _, err := packfile.PatchDelta([]byte("some value"), d); return err },
 			seeds: []string{"\n\f\fsomenewvalue", "\n\x0e\x0evalue", "\n\x0e\x0eva", "\n\x80\x80\x80\x80\x80\x802\x7fvalue", "\n\n\aBBBBBBB\aCCCCCCC", "\n\n\x90\a\x90\a", "\n\x0e\x91\x00\x04\x0a value", "\n\x14\xb1\x00\x0a\x00\x90\x0a"}},
 		{name: "packfile/varint", alpha: bin, tpls: []c53Tpl{raw},
 			run: func(d []byte, l *c53Lim) error {
@@ -429,7 +531,7 @@ func c53Decoders() []*c53Decoder {
 				return nil
 			}, seeds: []string{"multi_ack", "multi_ack thin-pack", "agent=git/2.0", "symref=HEAD:refs/heads/main object-format=sha1 agent=x"}},
 		{name: "revision/parser", alpha: []string{"a", "@", "{", "}", "^", "~", ":", "/", "1", "-", "!", "."}, tpls: []c53Tpl{raw, {pre: "a^{"}, {pre: "@{"}, {pre: ":/"}},
-			run: func(d []byte, l *c53Lim) error { _, err := bridge.RevisionParse(l.stream(d)); return err },
+			run:   func(d []byte, l *c53Lim) error { _, err := bridge.RevisionParse(l.stream(d)); return err },
 			seeds: []string{"@{2016-12-16T21:42:47Z}", "@~3", "v0.99.8^{}", "master:./README", "HEAD^{/fix nasty bug}", "HEAD^{/[A-", ":/fix nasty bug", ":/[A-", "a@{-1}", "a@{upstream}", "a^^2~3^{commit}", ":0:README"}},
 		// ---- smart protocol messages (pkt-line framed)
 		{name: "packp/advrefs", alpha: pkta, run: c53Pk[packp.AdvRefs](), tpls: []c53Tpl{raw, P(""), P(c53H + " "), P(c53H + " HEAD\x00"), {pre: c53H + " HEAD\x00ofs-delta", pkt: true, tail: ""}, P("shallow "), {pre: "# service=git-upload-pack\n", pkt: true, tail: "0000"}},
